@@ -31,6 +31,8 @@ type RunSpec struct {
 	ReqHost  string
 	Via      string
 	Agent    string   // honest nokey otherkey otherdata replay garbage empty fail close
+	// DirEdit is applied to the registered-key directory before the run: file -> key spec, "" = delete.
+	DirEdit  map[string]string
 	Handlers []string // real | accept | reject | reject-disabled | reject-invalid | reject-unknown | reject-untyped | reject-panic-typed
 }
 
@@ -40,6 +42,8 @@ type Case struct {
 	// Held are the pool keys the forwarded agent holds.
 	Held []string
 	Runs []RunSpec
+	// Reuse: the real handler object (and its forwarded connection) is built once and used by every run.
+	Reuse bool
 }
 
 var names = []string{"alice", "bob", "carol", "alice.pub"}
@@ -98,8 +102,14 @@ func gen(t *rapid.T) Case {
 	}
 	c.Held = rapid.SliceOfNDistinct(rapid.SampledFrom(userKeys), 0, 3, func(s string) string { return s }).Draw(t, "held")
 	n := rapid.IntRange(1, 4).Draw(t, "nruns")
+	c.Reuse = rapid.Bool().Draw(t, "reuseHandler")
 	for i := 0; i < n; i++ {
 		l := fmt.Sprintf("run%d", i)
+		var edit map[string]string
+		if i > 0 && rapid.IntRange(0, 2).Draw(t, l+"Edit") == 0 {
+			f := rapid.SampledFrom(files[:4]).Draw(t, l+"EditFile")
+			edit = map[string]string{f: rapid.SampledFrom(append([]string{"", "", "unparsable"}, userKeys...)).Draw(t, l+"EditTo")}
+		}
 		r := RunSpec{
 			LogName: rapid.SampledFrom(names).Draw(t, l+"Log"),
 			Policy:  rapid.SampledFrom([]string{"NONS", "NONS", "NONS", "NSOK"}).Draw(t, l+"Pol"),
@@ -107,6 +117,7 @@ func gen(t *rapid.T) Case {
 			ReqUser: rapid.SampledFrom([]string{"alice", "bob", "root", "carol", "mallory"}).Draw(t, l+"RU"),
 			ReqHost: rapid.SampledFrom([]string{"laptop", "host.example.com"}).Draw(t, l+"RH"),
 			Via:     rapid.SampledFrom([]string{"direct", "env"}).Draw(t, l+"Via"),
+			DirEdit: edit,
 			Agent:   rapid.SampledFrom([]string{"honest", "honest", "honest", "nokey", "otherkey", "otherdata", "replay", "replay", "garbage", "empty", "fail", "close"}).Draw(t, l+"Agent"),
 		}
 		// handler list: at most one real handler, any accept/reject pattern around it
@@ -182,7 +193,9 @@ func exec(c Case) (vh.Outcome, error) {
 	}
 	defer os.RemoveAll(dir)
 	contents := map[string][]byte{}
+	cur := map[string]string{}
 	for f, k := range c.Dir {
+		cur[f] = k
 		contents[f] = registeredContent(k, f+"@registered")
 		os.WriteFile(filepath.Join(dir, f), contents[f], 0o644)
 	}
@@ -254,7 +267,21 @@ func exec(c Case) (vh.Outcome, error) {
 
 	allChallenges := [][]byte{}
 	adversarialWithKey, rejectBeforeAccept := false, false
+	var shared gensign.Handler
+	sharedUses, dirEdits := 0, 0
 	for ri, r := range c.Runs {
+		for f, k := range r.DirEdit {
+			dirEdits++
+			if k == "" {
+				delete(cur, f)
+				delete(contents, f)
+				os.Remove(filepath.Join(dir, f))
+				continue
+			}
+			cur[f] = k
+			contents[f] = registeredContent(k, fmt.Sprintf("%s@registered-%d", f, ri))
+			os.WriteFile(filepath.Join(dir, f), contents[f], 0o644)
+		}
 		where := fmt.Sprintf("run %d (login %q, policy %s, hardKey %v, agent %s, handlers %v)", ri, r.LogName, r.Policy, r.HardKey, r.Agent, r.Handlers)
 		behaviour = r.Agent
 		signs = nil
@@ -268,14 +295,21 @@ func exec(c Case) (vh.Outcome, error) {
 		var fakes []*vh.FakeHandler
 		for j, kind := range r.Handlers {
 			if kind == "real" {
-				conn, derr := vh.DialProxy(p)
-				if derr != nil {
-					return out, nil
-				}
-				defer conn.Close()
-				h, herr := regular.NewHandler(conf, conn)
-				if herr != nil {
-					return out, vh.Errf("%s: NewHandler failed: %v", where, herr)
+				var h gensign.Handler
+				if c.Reuse && shared != nil {
+					h = shared
+					sharedUses++
+				} else {
+					conn, derr := vh.DialProxy(p)
+					if derr != nil {
+						return out, nil
+					}
+					defer conn.Close()
+					rh, herr := regular.NewHandler(conf, conn)
+					if herr != nil {
+						return out, vh.Errf("%s: NewHandler failed: %v", where, herr)
+					}
+					h, shared = rh, rh
 				}
 				handlers = append(handlers, h)
 				fakes = append(fakes, nil)
@@ -294,10 +328,10 @@ func exec(c Case) (vh.Outcome, error) {
 
 		// ---- model: which handler authenticates ----
 		regFile := r.LogName + ".pub"
-		if _, ok := c.Dir[regFile]; !ok {
+		if _, ok := cur[regFile]; !ok {
 			regFile = r.LogName
 		}
-		regKey, hasReg := c.Dir[regFile]
+		regKey, hasReg := cur[regFile]
 		var K ssh.PublicKey
 		if hasReg && regKey != "unparsable" {
 			// the registered key is whatever the first key line of the file says (independent parse)
@@ -417,6 +451,12 @@ func exec(c Case) (vh.Outcome, error) {
 		}
 	}
 	out.NonTrivial = adversarialWithKey || rejectBeforeAccept
+	if sharedUses > 0 {
+		out.Classes = append(out.Classes, "handler-object-reused")
+	}
+	if dirEdits > 0 {
+		out.Classes = append(out.Classes, "directory-edited-between-runs")
+	}
 	return out, nil
 }
 
@@ -427,7 +467,7 @@ func orDefault(name string) string {
 	return name
 }
 
-const rule = "histories of 1..4 runs of gensign.Run sharing one registered-key directory and one scripted forwarded agent. Per run: login name (incl. names of other users and 'alice.pub'), namespace policy NONS / NSOK, hardware-key flag, client-declared user / host different from the login name, parameters built directly or through NewReqParam, agent behaviour {honest, lacks the key, signs with another key, signs other data, replays a signature captured earlier in the history, garbage, empty signature, failure, closes the connection}, handler list of 1..4 entries with at most one real regular handler among accepting harness handlers and harness handlers rejecting with every kind of error (authentication, disabled, invalid parameters, unknown, panic-typed, untyped). Directory: '<n>.pub' and bare '<n>' files holding any user's key (RSA, ECDSA, Ed25519, and the types nobody can answer for through the forwarded agent: security-key types, a certificate line, DSA), both with different keys, unparsable, absent. Oracle: the harness sees every sign request and reply and decides itself (K.Verify over this run's challenge under the registered key) whether the real handler may authenticate; CA call or add-identity => the selected handler is the first in list order that authenticates, earlier ones asked once, later ones never; none => AllAuthFailed, no Generate, no CA call, no add; a handler authenticates => the run succeeds with exactly one request from that handler; challenges are 64 bytes, only under the registered key, pairwise distinct over the history. Non-trivial: an adversarial agent while the key file exists, or a reject before an accept in a list of >= 2."
+const rule = "histories of 1..4 runs of gensign.Run sharing one registered-key directory (a third of the later runs first replace, break or delete a '<name>.pub' / '<name>' file) and one scripted forwarded agent; in half of the histories every run uses the same regular.Handler object and forwarded connection, otherwise each run builds its own. Per run: login name (incl. names of other users and 'alice.pub'), namespace policy NONS / NSOK, hardware-key flag, client-declared user / host different from the login name, parameters built directly or through NewReqParam, agent behaviour {honest, lacks the key, signs with another key, signs other data, replays a signature captured earlier in the history, garbage, empty signature, failure, closes the connection}, handler list of 1..4 entries with at most one real regular handler among accepting harness handlers and harness handlers rejecting with every kind of error (authentication, disabled, invalid parameters, unknown, panic-typed, untyped). Directory: '<n>.pub' and bare '<n>' files holding any user's key (RSA, ECDSA, Ed25519, and the types nobody can answer for through the forwarded agent: security-key types, a certificate line, DSA), both with different keys, unparsable, absent. Oracle: the harness sees every sign request and reply and decides itself (K.Verify over this run's challenge under the registered key) whether the real handler may authenticate; CA call or add-identity => the selected handler is the first in list order that authenticates, earlier ones asked once, later ones never; none => AllAuthFailed, no Generate, no CA call, no add; a handler authenticates => the run succeeds with exactly one request from that handler; challenges are 64 bytes, only under the registered key, pairwise distinct over the history. Non-trivial: an adversarial agent while the key file exists, or a reject before an accept in a list of >= 2."
 
 func TestC01Auth(t *testing.T) {
 	vh.Run(t, vh.Spec[Case]{Property: "C01", Name: "TestC01Auth", Rule: rule, Gen: gen, Exec: exec})
